@@ -29,3 +29,193 @@ pub fn random_access_wire_access_index<F: RichField + Extendable<D>, const D: us
 pub fn poseidon_wire_swap<F: RichField + Extendable<D>, const D: usize>() -> usize {
     PoseidonGate::<F, D>::WIRE_SWAP
 }
+
+// ---------------------------------------------------------------------------------------------
+// plonk: vanishing polynomial evaluators, verifier core, partial products
+
+use crate::field::types::Field;
+use crate::field::zero_poly_coset::ZeroPolyOnCoset;
+use crate::hash::hash_types::HashOut;
+use crate::iop::ext_target::ExtensionTarget;
+use crate::plonk::circuit_builder::CircuitBuilder;
+use crate::plonk::circuit_data::{CommonCircuitData, VerifierOnlyCircuitData};
+use crate::plonk::config::GenericConfig;
+use crate::plonk::proof::{Proof, ProofChallenges, ProofWithPublicInputs};
+use crate::plonk::vars::{EvaluationTargets, EvaluationVars, EvaluationVarsBaseBatch};
+
+#[allow(clippy::too_many_arguments)]
+pub fn eval_vanishing_poly<F: RichField + Extendable<D>, const D: usize>(
+    common_data: &CommonCircuitData<F, D>,
+    x: F::Extension,
+    vars: EvaluationVars<F, D>,
+    local_zs: &[F::Extension],
+    next_zs: &[F::Extension],
+    local_lookup_zs: &[F::Extension],
+    next_lookup_zs: &[F::Extension],
+    partial_products: &[F::Extension],
+    s_sigmas: &[F::Extension],
+    betas: &[F],
+    gammas: &[F],
+    alphas: &[F],
+    deltas: &[F],
+) -> Vec<F::Extension> {
+    crate::plonk::vanishing_poly::eval_vanishing_poly::<F, D>(
+        common_data,
+        x,
+        vars,
+        local_zs,
+        next_zs,
+        local_lookup_zs,
+        next_lookup_zs,
+        partial_products,
+        s_sigmas,
+        betas,
+        gammas,
+        alphas,
+        deltas,
+    )
+}
+
+#[allow(clippy::too_many_arguments)]
+pub fn eval_vanishing_poly_base_batch<F: RichField + Extendable<D>, const D: usize>(
+    common_data: &CommonCircuitData<F, D>,
+    indices_batch: &[usize],
+    xs_batch: &[F],
+    vars_batch: EvaluationVarsBaseBatch<F>,
+    local_zs_batch: &[&[F]],
+    next_zs_batch: &[&[F]],
+    local_lookup_zs_batch: &[&[F]],
+    next_lookup_zs_batch: &[&[F]],
+    partial_products_batch: &[&[F]],
+    s_sigmas_batch: &[&[F]],
+    betas: &[F],
+    gammas: &[F],
+    deltas: &[F],
+    alphas: &[F],
+    z_h_on_coset: &ZeroPolyOnCoset<F>,
+    lut_re_poly_evals: &[&[F]],
+) -> Vec<Vec<F>> {
+    crate::plonk::vanishing_poly::eval_vanishing_poly_base_batch::<F, D>(
+        common_data,
+        indices_batch,
+        xs_batch,
+        vars_batch,
+        local_zs_batch,
+        next_zs_batch,
+        local_lookup_zs_batch,
+        next_lookup_zs_batch,
+        partial_products_batch,
+        s_sigmas_batch,
+        betas,
+        gammas,
+        deltas,
+        alphas,
+        z_h_on_coset,
+        lut_re_poly_evals,
+    )
+}
+
+#[allow(clippy::too_many_arguments)]
+pub fn eval_vanishing_poly_circuit<F: RichField + Extendable<D>, const D: usize>(
+    builder: &mut CircuitBuilder<F, D>,
+    common_data: &CommonCircuitData<F, D>,
+    x: ExtensionTarget<D>,
+    x_pow_deg: ExtensionTarget<D>,
+    vars: EvaluationTargets<D>,
+    local_zs: &[ExtensionTarget<D>],
+    next_zs: &[ExtensionTarget<D>],
+    local_lookup_zs: &[ExtensionTarget<D>],
+    next_lookup_zs: &[ExtensionTarget<D>],
+    partial_products: &[ExtensionTarget<D>],
+    s_sigmas: &[ExtensionTarget<D>],
+    betas: &[crate::iop::target::Target],
+    gammas: &[crate::iop::target::Target],
+    alphas: &[crate::iop::target::Target],
+    deltas: &[crate::iop::target::Target],
+) -> Vec<ExtensionTarget<D>> {
+    crate::plonk::vanishing_poly::eval_vanishing_poly_circuit::<F, D>(
+        builder,
+        common_data,
+        x,
+        x_pow_deg,
+        vars,
+        local_zs,
+        next_zs,
+        local_lookup_zs,
+        next_lookup_zs,
+        partial_products,
+        s_sigmas,
+        betas,
+        gammas,
+        alphas,
+        deltas,
+    )
+}
+
+pub fn verify_with_challenges<
+    F: RichField + Extendable<D>,
+    C: GenericConfig<D, F = F>,
+    const D: usize,
+>(
+    proof: Proof<F, C, D>,
+    public_inputs_hash: HashOut<F>,
+    challenges: ProofChallenges<F, D>,
+    verifier_data: &VerifierOnlyCircuitData<C, D>,
+    common_data: &CommonCircuitData<F, D>,
+) -> anyhow::Result<()>
+where
+    C::InnerHasher: crate::plonk::config::Hasher<F, Hash = HashOut<F>>,
+{
+    crate::plonk::verifier::verify_with_challenges::<F, C, D>(
+        proof,
+        public_inputs_hash,
+        challenges,
+        verifier_data,
+        common_data,
+    )
+}
+
+pub fn validate_proof_with_pis_shape<
+    F: RichField + Extendable<D>,
+    C: GenericConfig<D, F = F>,
+    const D: usize,
+>(
+    proof_with_pis: &ProofWithPublicInputs<F, C, D>,
+    common_data: &CommonCircuitData<F, D>,
+) -> anyhow::Result<()> {
+    crate::plonk::verif_validate_proof_with_pis_shape(proof_with_pis, common_data)
+}
+
+pub fn check_partial_products<F: Field>(
+    numerators: &[F],
+    denominators: &[F],
+    partials: &[F],
+    z_x: F,
+    z_gx: F,
+    max_degree: usize,
+) -> Vec<F> {
+    crate::util::partial_products::check_partial_products(
+        numerators,
+        denominators,
+        partials,
+        z_x,
+        z_gx,
+        max_degree,
+    )
+}
+
+pub fn quotient_chunk_products<F: Field>(quotient_values: &[F], max_degree: usize) -> Vec<F> {
+    crate::util::partial_products::quotient_chunk_products(quotient_values, max_degree)
+}
+
+pub fn partial_products_and_z_gx<F: Field>(z_x: F, quotient_chunk_products: &[F]) -> Vec<F> {
+    crate::util::partial_products::partial_products_and_z_gx(z_x, quotient_chunk_products)
+}
+
+pub fn num_partial_products(n: usize, max_degree: usize) -> usize {
+    crate::util::partial_products::num_partial_products(n, max_degree)
+}
+
+pub fn eval_l_0<F: Field>(n: usize, x: F) -> F {
+    crate::plonk::plonk_common::eval_l_0(n, x)
+}
